@@ -141,7 +141,14 @@ def main():
             f"(not a verdict on the property):\n{tail}")
         return 2
 
-    tcfg = spec[tier]
+    tcfg = dict(spec[tier])
+    # development knob (not used by the registered commands): run a tier
+    # with a fraction of its time budget
+    scale = float(os.environ.get("VERIF_BUDGET_SCALE", "1") or 1)
+    if scale != 1:
+        tcfg["budget_s"] = max(10, int(tcfg["budget_s"] * scale))
+        tcfg["min_evaluations"] = max(
+            1, int(tcfg.get("min_evaluations", 1) * scale * 0.5))
     nshards = tcfg["shards"]
     budget = tcfg["budget_s"]
     par = min(nshards, int(os.environ.get("VERIF_JOBS",
